@@ -192,6 +192,12 @@ func c15workList() []c15work {
 				l.Del("taxes")
 			}
 			out = append(out, c15work{"regime-addon:" + r + ":" + a, n.Bytes()})
+			if a == "" {
+				// the same without an issue date: the regime's clock and time zone decide it
+				n2 := n.Clone()
+				n2.Del("issue_date")
+				out = append(out, c15work{"regime-no-issue-date:" + r, n2.Bytes()})
+			}
 		}
 	}
 	return out
@@ -315,12 +321,52 @@ func childC15(args []string) int {
 	res.FPInit = fingerprintRegistries()
 	work := c15workList()
 	res.WorkItems = len(work)
+	// cold pass: before anything has been calculated in this process, several
+	// goroutines run the same items at the same moment, so that whatever is set up
+	// on first use (per regime, addon, currency, time zone) is set up under contention
+	coldG := G
+	if coldG > 4 {
+		coldG = 4
+	}
+	cold := make([][][]string, coldG)
+	{
+		var wg sync.WaitGroup
+		gate := make(chan struct{})
+		for g := 0; g < coldG; g++ {
+			cold[g] = make([][]string, len(work))
+			wg.Add(1)
+			go func(g int) {
+				defer wg.Done()
+				<-gate
+				// from the end of the list: the one-per-regime items come first, so every
+				// goroutine meets each regime for the first time at about the same moment
+				for i := len(work) - 1; i >= 0; i-- {
+					cold[g][i] = c15pipeline(work[i].Doc, func() {})
+				}
+			}(g)
+		}
+		close(gate)
+		wg.Wait()
+	}
 	// sequential pass: the expected result of every work item
 	expected := make([][]string, len(work))
 	for i, w := range work {
 		expected[i] = c15pipeline(w.Doc, func() {})
 	}
 	res.FPSeq = fingerprintRegistries()
+	for g := range cold {
+		for i := range work {
+			res.Pipelines++
+			if d := firstStepDiff(expected[i], cold[g][i]); d != "" {
+				if strings.HasPrefix(d, "panic") {
+					res.Panics++
+				}
+				if len(res.Divergences) < 10 {
+					res.Divergences = append(res.Divergences, map[string]any{"item": work[i].Name, "difference": "cold start: " + d})
+				}
+			}
+		}
+	}
 	// no result may share a mutable node (map, slice array, struct behind a
 	// pointer) with the registries: a later write to the document would then
 	// land in the shared definitions
